@@ -53,8 +53,16 @@ def check_seq(seq, comp, want_perm, case):
           observed=m, expected=[float(r) for r in refs])
     if want_perm:
         try:
-            res = SP(seq).get_deltaMax(True)
-            ncalls += 1
+            import numpy as _np
+            flag = (True, 1, _np.True_)[(len(seq) + comp[0]) % 3]
+            if (len(seq) + comp[1]) % 2:
+                res = SP(seq).get_deltaMax(flag)
+                ncalls += 1
+            else:
+                o_ = SP(seq)
+                o_.get_deltaMax()                  # value cached first, permutant asked afterwards on the same object
+                res = o_.get_deltaMax(flag)
+                ncalls += 2
         except Exception as e:  # noqa
             v("exception", "get_deltaMax(True) raised %r for %s" % (e, seq))
             return out, ncalls, m
